@@ -1,12 +1,19 @@
 """C05 - histogram counts and reverse indices partition the binned data.
 
-spec -> code : HistMC.tla enumerates every case of the bounded space; each is
-               concretised on the dyadic lattice and run through both engines.
-code -> spec : what the engines returned (plus larger seeded cases) is written as
+spec -> code : HistMC.tla enumerates every case of the bounded space; each carries the
+               representation of the data argument, the entry point and the scalar kind
+               (covering design) and is concretised on a dyadic lattice and run through both
+               engines.  HistMC.tla also enumerates HISTORIES of calls on one Binner object
+               (dohist with different options / calc_stats); each is run on ONE object per engine.
+code -> spec : what the engines returned (plus larger seeded cases and histories) is written as
                ndjson and judged by HistTrace.tla (property-level Accept of Hist.tla).
-Python never judges a result; it only maps abstract <-> concrete and records.
+Python never judges a result; it only maps abstract <-> concrete and records.  The one relation
+it evaluates itself is between two implementation outputs (re-used object == fresh object,
+bit for bit), recorded as a boolean the trace module demands to be TRUE.
 """
+import hashlib
 import random
+import warnings
 
 import numpy as np
 
@@ -17,68 +24,205 @@ from ..tlc import cfg
 
 NEEDS_EXT = True
 
+# ---- representations of the data argument (HistMC.tla: RepSeq / ScalarSeq) ----------------------
+REPS = ["f8", "f8be", "f4", "f4be", "i2", "i4", "i4be", "i8", "u1", "u4", "list", "intlist", "tuple",
+        "strided2", "strided3", "reversed", "col2d", "rec12", "rec20", "rec12be", "reci4", "recf4", "readonly"]
+SCALAR_REPS = ["zerod", "pyfloat", "pyint", "npf8", "npi4"]
+ENTRIES = ["histogram", "binner", "more", "weighted"]
+SREPS = ["pyfloat", "pyint", "npf8", "npi8"]
+_DT = {"f8": "<f8", "f8be": ">f8", "f4": "<f4", "f4be": ">f4", "i2": "<i2", "i4": "<i4", "i4be": ">i4", "i8": "<i8",
+       "u1": "u1", "u4": "<u4", "readonly": "<f8", "reversed": "<f8", "strided2": "<f8", "strided3": "<f8", "col2d": "<f8"}
+_REC = {"rec12": ([("v", "<f8"), ("t", "<i4")], "v"), "rec20": ([("t", "<i4"), ("v", "<f8"), ("u", "<f8")], "v"),
+        "rec12be": ([("v", ">f8"), ("t", "<i4")], "v"), "reci4": ([("t", "u1"), ("v", "<i4")], "v"),
+        "recf4": ([("t", "<i2"), ("v", "<f4")], "v")}
+# element kind of a representation: decides which lattices can be held exactly
+KIND = {"f4": "f4", "f4be": "f4", "recf4": "f4", "i2": "int", "i4": "int", "i4be": "int", "i8": "int", "reci4": "int",
+        "intlist": "int", "pyint": "int", "npi4": "int", "u1": "uint", "u4": "uint"}
+JUNK = 7.0e5      # filler between the elements of strided / record views: far outside every lattice
+
 # lattice concretisations: value = (x + off) * unit
-CONCRETE = [
-    (1, 0, "i8"), (1, -3, "i4"), (0.5, 0, "f8"), (0.125, 7, "f8"), (4.0, 1000, "f4"),
-    (2.0 ** -10, -2 ** 10, "f8"), (1, 0, "f8"), (1024.0, -5, "f8"),
-]
+LATTICES = {
+    "float": [(0.5, 0), (0.125, 7), (2.0 ** -10, -2 ** 10), (1, 0), (1024.0, -5), (1, -3), (4.0, 1000), (1.0, 0)],
+    "f4":    [(4.0, 1000), (0.5, 0), (0.125, 7), (1, -3), (2.0 ** -10, -2 ** 10), (1.0, 0)],
+    "int":   [(1, 0), (1, -3), (1024, -5), (1, 1000), (2, 7)],
+    "uint":  [(1, 0), (1, 7), (16, 2), (2, 0)],
+}
 
 BOUNDS = {
-    "quick":    dict(MaxLen=3, Vals=set(range(1, 6)), BinSizes={1, 2, 3}, NBinSet={1, 2, 3, 4}, LimVals=set(range(0, 7))),
-    "thorough": dict(MaxLen=4, Vals=set(range(1, 7)), BinSizes={1, 2, 3, 5}, NBinSet={1, 2, 3, 4}, LimVals=set(range(0, 8))),
+    "quick":    dict(MaxLen=3, Vals=set(range(1, 6)), BinSizes={1, 2, 3}, NBinSet={1, 2, 3, 4}, LimVals=set(range(0, 7)),
+                     RepFan=1, HLens={1, 2, 3}, HVals={1, 2, 4}, HBinSizes={1, 2}, HNBins={2, 3}, HNPer={1, 2},
+                     HMins={2}, HMaxs={3}, HDepth=2, HThin=3, HBothW=False),
+    "thorough": dict(MaxLen=4, Vals=set(range(1, 7)), BinSizes={1, 2, 3, 5}, NBinSet={1, 2, 3, 4}, LimVals=set(range(0, 8)),
+                     RepFan=1, HLens={1, 2, 3}, HVals={1, 2, 4}, HBinSizes={1, 2}, HNBins={2, 3}, HNPer={1, 2},
+                     HMins={2}, HMaxs={3}, HDepth=3, HThin=24, HBothW=True),
 }
 
 
-def concretise(c, k):
-    unit, off, dt = CONCRETE[k % len(CONCRETE)]
-    x = np.array([(v + off) * unit for v in c["x"]], dtype=dt)
+def represent(vals, rep):
+    """exact lattice values -> (object handed to esutil, buffer whose bytes must not change).  None if `rep` cannot hold
+    the values exactly."""
+    a = np.array(vals, dtype="f8")
+    n = a.size
+    if rep in _REC:
+        dt, f = _REC[rep]
+        rec = np.zeros(n, dtype=dt)
+        for name in rec.dtype.names:
+            rec[name] = JUNK if rec.dtype[name].kind == "f" else 77
+        with np.errstate(all="ignore"):
+            rec[f] = a
+        if not np.array_equal(rec[f].astype("f8"), a):
+            return None
+        return rec[f], rec
+    if rep in ("list", "tuple"):
+        o = [float(v) for v in a]
+        return (o if rep == "list" else tuple(o)), None
+    if rep == "intlist":
+        if any(v != int(v) for v in a):
+            return None
+        return [int(v) for v in a], None
+    if rep in SCALAR_REPS:
+        if n != 1 or (KIND.get(rep) == "int" and a[0] != int(a[0])):
+            return None
+        v = a[0]
+        o = {"zerod": lambda: np.array(v), "pyfloat": lambda: float(v), "pyint": lambda: int(v),
+             "npf8": lambda: np.float64(v), "npi4": lambda: np.int32(v)}[rep]()
+        return o, None
+    with np.errstate(all="ignore"):
+        t = a.astype(_DT[rep])
+    if not np.array_equal(t.astype("f8"), a):
+        return None
+    if rep == "strided2":
+        buf = np.full(2 * n + 1, JUNK); buf[1::2] = t
+        return buf[1::2], buf
+    if rep == "strided3":
+        buf = np.full(3 * n, JUNK); buf[::3] = t
+        return buf[::3], buf
+    if rep == "reversed":
+        buf = t[::-1].copy()
+        return buf[::-1], buf
+    if rep == "col2d":
+        buf = np.full((n, 3), JUNK); buf[:, 1] = t
+        return buf[:, 1], buf
+    if rep == "readonly":
+        t.flags.writeable = False
+    return t, t
+
+
+def _snap(obj, buf):
+    return buf.tobytes() if buf is not None else repr(obj)
+
+
+def lattice_for(rep, k, values):
+    """k-th lattice of the element kind of `rep` that holds all `values` (abstract ints) exactly"""
+    fam = LATTICES[KIND.get(rep, "float")]
+    for d in range(len(fam)):
+        unit, off = fam[(k + d) % len(fam)]
+        if represent([(v + off) * unit for v in values], rep) is not None:
+            return unit, off
+    return None
+
+
+def scalar(v, srep):
+    """a binsize / min / max value in the scalar kind `srep` (integral kinds only where the value is integral)"""
+    integral = float(v) == int(v)
+    if srep == "pyint" and integral:
+        return int(v)
+    if srep == "npi8" and integral:
+        return np.int64(v)
+    if srep in ("npf8", "npi8"):
+        return np.float64(v)
+    return float(v)
+
+
+def spec_kw(c, unit, off, srep):
     kw = {}
     if c["mode"] == "binsize":
-        kw["binsize"] = c["b"] * unit
+        kw["binsize"] = scalar(c["b"] * unit, srep)
+    elif c["mode"] == "nbin":
+        kw["nbin"] = np.int64(c["b"]) if srep.startswith("np") else int(c["b"])
     else:
-        kw["nbin"] = int(c["b"])
+        kw["nperbin"] = int(c["b"])
     if c["hasmin"]:
-        kw["min"] = (c["min"] + off) * unit
+        kw["min"] = scalar((c["min"] + off) * unit, srep)
     if c["hasmax"]:
-        kw["max"] = (c["max"] + off) * unit
-    return x, kw
+        kw["max"] = scalar((c["max"] + off) * unit, srep)
+    return kw
 
 
-def observe(x, kw, engine, rev):
+def concretise(c, k):
+    rep = c.get("rep", "f8")
+    lat = lattice_for(rep, k, c["x"])
+    if lat is None:
+        raise MachineryError("no lattice holds case %r in representation %s" % (c, rep))
+    unit, off = lat
+    x, buf = represent([(v + off) * unit for v in c["x"]], rep)
+    return x, buf, spec_kw(c, unit, off, c.get("srep", "pyfloat")), (unit, off)
+
+
+def _weights(n):
+    return np.array([1.0 + (i % 3) * 0.5 for i in range(n)])
+
+
+def _obs_of(d, err=None):
+    if err is not None:
+        return {"err": err, "hist": [], "hasrev": False, "rev": []}
+    if "hist" not in d:
+        return {"err": "nohist", "hist": [], "hasrev": False, "rev": []}
+    return {"err": "none", "hist": [int(v) for v in d["hist"]], "hasrev": "rev" in d,
+            "rev": [int(v) for v in d["rev"]] if "rev" in d else []}
+
+
+def observe(x, kw, engine, rev, entry="histogram", buf=None):
     import esutil.stat.util as su
-    import warnings
     saved = su.have_chist
     su.have_chist = (engine == "c") and saved
-    before = x.tobytes()
+    before = _snap(x, buf)
     try:
         with warnings.catch_warnings():
             warnings.simplefilter("ignore")
             with np.errstate(all="ignore"):
-                res = su.histogram(x, rev=rev, **kw)
-        if rev:
-            h, r = res
-            o = {"err": "none", "hist": [int(v) for v in h], "hasrev": True, "rev": [int(v) for v in r]}
-        else:
-            o = {"err": "none", "hist": [int(v) for v in res], "hasrev": False, "rev": []}
+                if entry == "histogram":
+                    res = su.histogram(x, rev=rev, **kw)
+                    d = {"hist": res[0], "rev": res[1]} if rev else {"hist": res}
+                elif entry == "binner":
+                    d = su.Binner(x)
+                    d.dohist(rev=rev, **kw)
+                elif entry == "more":
+                    d = su.histogram(x, rev=rev, more=True, **kw)
+                else:
+                    d = su.histogram(x, weights=_weights(np.size(x)), rev=rev, **kw)
+        o = _obs_of(d)
     except Exception as e:  # noqa
-        o = {"err": type(e).__name__, "hist": [], "hasrev": False, "rev": []}
+        o = _obs_of(None, type(e).__name__)
     finally:
         su.have_chist = saved
     o["engine"] = engine
-    o["frame_ok"] = (x.tobytes() == before)
+    o["frame_ok"] = (_snap(x, buf) == before)
     return o
 
 
 def run_case(args):
     i, c = args
-    x, kw = concretise(c, i)
-    obs = [observe(x, kw, "c", True), observe(x, kw, "py", True), observe(x, kw, "c" if i % 2 else "py", False)]
-    return {"id": i, "c": c, "obs": obs, "concrete": i % len(CONCRETE)}
+    x, buf, kw, _ = concretise(c, i)
+    e = c.get("entry", "histogram")
+    obs = [observe(x, kw, "c", True, e, buf), observe(x, kw, "py", True, e, buf),
+           observe(x, kw, "c" if i % 2 else "py", False, e, buf)]
+    return {"id": i, "kind": "case", "c": c, "obs": obs, "concrete": i}
 
 
 def struct_class(c):
     lim = ("min" if c["hasmin"] else "") + ("max" if c["hasmax"] else "") or "nolimits"
     return "%s|%s" % (c["mode"], lim)
+
+
+def _fitting_rep(rng, n, values):
+    """a representation (drawn from all of them) that can hold the abstract values on some lattice"""
+    pool = REPS + (SCALAR_REPS if n == 1 else [])
+    for _ in range(40):
+        rep = rng.choice(pool)
+        if lattice_for(rep, 0, values) is not None:
+            return rep
+    return "f8"
 
 
 def random_cases(rng, n, maxlen, start_id):
@@ -97,6 +241,9 @@ def random_cases(rng, n, maxlen, start_id):
         hasmin, hasmax = rng.random() < 0.4, rng.random() < 0.4
         c = {"x": x, "mode": mode, "b": b, "hasmin": hasmin, "min": rng.randrange(0, nv + 2) if hasmin else 0,
              "hasmax": hasmax, "max": rng.randrange(0, nv + 2) if hasmax else 0}
+        c["rep"] = _fitting_rep(rng, ln, x)
+        c["entry"] = rng.choice(ENTRIES)
+        c["srep"] = rng.choice(SREPS)
         out.append((start_id + k, c))
     return out
 
@@ -107,6 +254,8 @@ def engines_agree_offlattice(args):
     rng = np.random.RandomState(seed)
     n = int(rng.choice([1, 3, 10, 100]))
     x = [rng.normal(size=n), rng.uniform(-5, 5, size=n), np.round(rng.uniform(0, 3, size=n), 1)][rng.randint(3)]
+    rep = ["f8", "f8be", "list", "strided2", "strided3", "reversed", "col2d", "rec12", "rec20", "rec12be", "readonly"][rng.randint(11)]
+    entry = ENTRIES[rng.randint(len(ENTRIES))]
     kw = {}
     if rng.rand() < 0.5:
         kw["binsize"] = float(rng.choice([0.1, 0.3, 1.0, 0.01, 2.5]))
@@ -116,13 +265,148 @@ def engines_agree_offlattice(args):
         kw["min"] = float(np.round(rng.uniform(-2, 1), 1))
     if rng.rand() < 0.3:
         kw["max"] = float(np.round(rng.uniform(1, 3), 1))
-    a, b = observe(x, kw, "c", True), observe(x, kw, "py", True)
+    xr, buf = represent(x, rep)
+    a, b = observe(xr, kw, "c", True, entry, buf), observe(xr, kw, "py", True, entry, buf)
     same = (a["err"], a["hist"], a["rev"]) == (b["err"], b["hist"], b["rev"])
-    return None if same else {"x": x.tolist(), "kw": kw, "c": a, "py": b}
+    return None if same else {"x": x.tolist(), "kw": kw, "rep": rep, "entry": entry, "c": a, "py": b}
 
 
+# ---- object histories -----------------------------------------------------------------------------
+INTERNAL_KEYS = ("sort_index", "wsort")      # working arrays the object happens to expose: not part of a result
+
+
+def _digest(d):
+    """every result the object holds, bit for bit"""
+    h = hashlib.blake2b(digest_size=12)
+    for k in sorted(d):
+        if k in INTERNAL_KEYS:
+            continue
+        v = np.asarray(d[k])
+        h.update(("%s|%s|%s|" % (k, v.dtype.str, v.shape)).encode())
+        h.update(v.tobytes())
+    return h.hexdigest()
+
+
+def _do_call(b, cl, unit, off, srep):
+    try:
+        with warnings.catch_warnings():
+            warnings.simplefilter("ignore")
+            with np.errstate(all="ignore"):
+                if cl["op"] == "calc_stats":
+                    b.calc_stats()
+                else:
+                    b.dohist(rev=bool(cl["rev"]), calc_stats=bool(cl["cs"]), **spec_kw(cl, unit, off, srep))
+        o = _obs_of(b)
+        o["digest"] = _digest(b)
+    except Exception as e:  # noqa
+        o = _obs_of(None, type(e).__name__)
+        o["digest"] = "err"
+    return o
+
+
+def _last_do(calls, k):
+    while k >= 0 and calls[k]["op"] != "dohist":
+        k -= 1
+    return k
+
+
+def run_history(args):
+    """one history on ONE Binner object per engine; after every call what the object holds, and whether that is
+    bit-for-bit what a fresh object shows that was given only the calls since the last dohist"""
+    import esutil.stat.util as su
+    i, h = args
+    rep, calls = h.get("rep", "f8"), h["calls"]
+    lat = lattice_for(rep, i, h["x"])
+    if lat is None:
+        raise MachineryError("no lattice holds history %r" % (h,))
+    unit, off = lat
+    vals = [(v + off) * unit for v in h["x"]]
+    srep = SREPS[i % len(SREPS)]
+    wvals = [1.0 + ((i + j) % 3) for j in range(len(vals))]
+
+    def make():
+        x, buf = represent(vals, rep)
+        w = None
+        if h["hasw"]:
+            wr = represent(wvals, h.get("wrep", "f8"))
+            w = wr[0] if wr is not None else np.array(wvals)
+        return x, buf, su.Binner(x, weights=w)
+
+    steps = [{"obs": [], "fresh": []} for _ in calls]
+    frame_ok = True
+    saved = su.have_chist
+    try:
+        for engine in ("c", "py"):
+            su.have_chist = (engine == "c") and saved
+            x, buf, b = make()
+            before = _snap(x, buf)
+            for k, cl in enumerate(calls):
+                o = _do_call(b, cl, unit, off, srep)
+                m = _last_do(calls, k)
+                if m >= 0:
+                    _, _, fb = make()
+                    for cl2 in calls[m:k + 1]:
+                        f = _do_call(fb, cl2, unit, off, srep)
+                    same = (f["err"], f["hist"], f["hasrev"], f["rev"], f["digest"]) == (o["err"], o["hist"], o["hasrev"], o["rev"], o["digest"])
+                else:
+                    same = True
+                o["engine"] = engine
+                del o["digest"]
+                steps[k]["obs"].append(o)
+                steps[k]["fresh"].append(bool(same))
+            frame_ok = frame_ok and _snap(x, buf) == before
+    finally:
+        su.have_chist = saved
+    return {"id": i, "kind": "history", "h": h, "steps": steps, "frame_ok": frame_ok}
+
+
+def _call_class(cl):
+    if cl["op"] == "calc_stats":
+        return "calc_stats"
+    return cl["mode"] + ("_rev" if cl["rev"] else "")
+
+
+def _coarse(h, cl):
+    """does the call need the sorted index (reverse indices, equal occupancy, weights) or only plain counts"""
+    if cl["op"] == "calc_stats":
+        return "calc_stats"
+    return "sorted_call" if (cl["rev"] or cl["mode"] == "nperbin" or h["hasw"]) else "plain_counts"
+
+
+def history_class(h, k):
+    """structural class of step k (1-based) of a history: what the same object was used for before"""
+    if k == 1:
+        return "first_call"
+    earlier = {_coarse(h, cl) for cl in h["calls"][:k - 1]}
+    return "after_plain_counts_call" if "plain_counts" in earlier else "after_sorted_calls_only"
+
+
+def random_histories(rng, n, maxlen, start_id):
+    out = []
+    for k in range(n):
+        ln = rng.choice([1, 2, 3, 7, 20, maxlen])
+        nv = rng.choice([1, 2, 5, 12, 40])
+        x = [rng.randrange(1, nv + 1) for _ in range(ln)]
+        calls = []
+        for _ in range(rng.choice([2, 3, 4, 5])):
+            if rng.random() < 0.15:
+                calls.append({"op": "calc_stats", "mode": "none", "b": 0, "hasmin": False, "min": 0, "hasmax": False, "max": 0,
+                              "rev": False, "cs": True})
+                continue
+            mode = rng.choice(["binsize", "binsize", "nbin", "nbin", "nperbin"])
+            b = rng.choice([1, 2, 3, 5, 7]) if mode == "binsize" else rng.choice([1, 2, 3, 4, 6, 8]) if mode == "nbin" else rng.choice([1, 2, 3, 5, ln])
+            hasmin, hasmax = rng.random() < 0.3, rng.random() < 0.3
+            calls.append({"op": "dohist", "mode": mode, "b": b, "hasmin": hasmin, "min": rng.randrange(0, nv + 2) if hasmin else 0,
+                          "hasmax": hasmax, "max": rng.randrange(0, nv + 2) if hasmax else 0,
+                          "rev": rng.random() < 0.5, "cs": rng.random() < 0.7})
+        out.append((start_id + k, {"x": x, "hasw": rng.random() < 0.25, "rep": _fitting_rep(rng, ln, x),
+                                   "wrep": rng.choice(["f8", "f4", "i4", "list", "rec12", "strided2", "f8be"]), "calls": calls}))
+    return out
+
+
+# ---- judging ----------------------------------------------------------------------------------------
 def judge(ctx, recs, what):
-    rejects = tracecheck.validate(ctx, "HistTrace.tla", [{"id": r["id"], "c": r["c"], "obs": r["obs"]} for r in recs],
+    rejects = tracecheck.validate(ctx, "HistTrace.tla", [{"id": r["id"], "kind": "case", "c": r["c"], "obs": r["obs"]} for r in recs],
                                   what=what)
     byid = {r["id"]: r for r in recs}
     for rid, failing in rejects.items():
@@ -136,75 +420,164 @@ def judge(ctx, recs, what):
             ctx.violation("histogram|argument_modified", "histogram modified its data argument", {"kind": "lattice", "c": r["c"], "concrete": r.get("concrete", 0)})
 
 
+def judge_histories(ctx, recs, what):
+    rejects = tracecheck.validate(ctx, "HistTrace.tla", [{"id": r["id"], "kind": "history", "h": r["h"], "steps": r["steps"]} for r in recs],
+                                  what=what)
+    byid = {r["id"]: r for r in recs}
+    for rid, failing in rejects.items():
+        r = byid[rid]
+        for f in failing:
+            k, cl = f.split(":", 1)
+            ctx.violation("Binner.history|%s|%s" % (cl, history_class(r["h"], int(k))),
+                          "what one Binner object holds after call %s of a history is not allowed by Hist.tla: clause %s" % (k, cl),
+                          {"kind": "history", "h": r["h"], "id": r["id"], "steps": r["steps"]})
+    for r in recs:
+        if not r["frame_ok"]:
+            ctx.violation("Binner.history|argument_modified", "Binner modified its data argument", {"kind": "history", "h": r["h"], "id": r["id"]})
+
+
+def _design_guard(cases, hists):
+    """vacuity guard of the covering design: every representation meets every mode, every limit pattern, every entry
+    point and every scalar kind; every pair of call classes occurs in a history"""
+    seen = set()
+    for c in cases:
+        lim = (c["hasmin"], c["hasmax"])
+        seen.update({("mode", c["rep"], c["mode"]), ("lim", c["rep"], lim), ("entry", c["rep"], c["entry"]), ("srep", c["rep"], c["srep"]),
+                     ("es", c["entry"], c["srep"])})
+    missing = [(r, m) for r in REPS for m in ("binsize", "nbin") if ("mode", r, m) not in seen]
+    missing += [(r, l) for r in REPS for l in [(a, b) for a in (False, True) for b in (False, True)] if ("lim", r, l) not in seen]
+    missing += [(r, e) for r in REPS for e in ENTRIES if ("entry", r, e) not in seen]
+    missing += [(r, s) for r in REPS for s in SREPS if ("srep", r, s) not in seen]
+    missing += [(r, "any") for r in SCALAR_REPS if not any(c["rep"] == r for c in cases)]
+    pairs = set()
+    for h in hists:
+        cl = h["calls"]
+        for k in range(1, len(cl)):
+            pairs.add((_call_class(cl[k - 1]), _call_class(cl[k])))
+    classes = ["calc_stats"] + [m + r for m in ("binsize", "nbin", "nperbin") for r in ("", "_rev")]
+    missing += [p for p in [(a, b) for a in classes for b in classes] if p not in pairs]
+    if missing:
+        raise MachineryError("covering design has holes: %s" % (missing[:8],))
+    hreps = {h["rep"] for h in hists}
+    return {"representations": len({c["rep"] for c in cases}), "history_representations": len(hreps), "call_class_pairs": len(pairs)}
+
+
 def run(ctx):
     B = BOUNDS[ctx.tier]
-    consts = dict(B, FixedFill=True, DoExport=False)
-    # 1. design level: the implementation-shaped pass refines the property, every case of the space
-    r1 = ctx.tlc("HistMC.tla", what="mechanism refines property (exhaustive)",
-                 cfg_text=cfg(constants=consts, invariants=["MechRefines", "PassSafe", "RefAccepted"]),
-                 workers=16, require=["ChooseData", "ChooseSpec", "Begin", "Step", "Fill"], timeout=3000)
-    # 1b. non-vacuity of MechRefines: the pinned (unrepaired) trailing fill must violate it
+    consts = dict(B, FixedFill=True, DoExport=False, FixedCache=True)
+    # 2. export every case and every object history (spec -> code)
+    r2 = ctx.tlc("HistMC.tla", what="export cases and object histories",
+                 cfg_text=cfg(constants=dict(consts, DoExport=True), next_="NextExport",
+                              constraints=["Export"]), workers=1, coverage=False, timeout=3000)
+    cases = r2.records.get("CASE", [])
+    hists = r2.records.get("HIST", [])
+    if not cases or not hists:
+        raise MachineryError("no cases / histories exported")
+    design = _design_guard(cases, hists)
+    # 1. design level: the implementation-shaped pass refines the property, every case of the space; the object with its
+    #    cached sort index refines the property along every history
+    r1 = ctx.tlc("HistMC.tla", what="mechanism and object refine property (exhaustive)",
+                 cfg_text=cfg(constants=consts, invariants=["MechRefines", "PassSafe", "RefAccepted", "ObjRefines", "CacheSound"]),
+                 workers=16, coverage=False, timeout=3000)
+    # vacuity: the export run visits exactly the enumeration states of this run; the rest are Begin/Step/Fill states, of
+    # which every runnable case has at least three
+    if r1.distinct - r2.distinct < len(cases) // 4:
+        raise MachineryError("mechanism run visited too few pass states (%d vs %d)" % (r1.distinct, r2.distinct))
+    # 1b. non-vacuity of MechRefines / ObjRefines: the deviating mechanisms must violate them
+    small = dict(consts, MaxLen=2, HLens={1, 2})
     r1b = ctx.tlc("HistMC.tla", what="self-test: unrepaired trailing fill violates MechRefines",
-                  cfg_text=cfg(constants=dict(consts, FixedFill=False, MaxLen=2), invariants=["MechRefines"]),
+                  cfg_text=cfg(constants=dict(small, FixedFill=False), invariants=["MechRefines"]),
                   workers=4, allow_violation=True, coverage=False)
     if "MechRefines" not in r1b.violated:
         raise MachineryError("self-test failed: MechRefines not violated by the deviating mechanism")
-    # 2. export every case (spec -> code)
-    r2 = ctx.tlc("HistMC.tla", what="export cases",
-                 cfg_text=cfg(constants=dict(consts, DoExport=True), next_="NextExport",
-                              constraints=["Export"]) , workers=1, coverage=False, timeout=3000)
-    cases = r2.records.get("CASE", [])
-    if not cases:
-        raise MachineryError("no cases exported")
+    r1c = ctx.tlc("HistMC.tla", what="self-test: object that skips the sort for plain counts violates ObjRefines",
+                  cfg_text=cfg(constants=dict(small, FixedCache=False, MaxLen=1), invariants=["ObjRefines"]),
+                  workers=4, allow_violation=True, coverage=False)
+    if "ObjRefines" not in r1c.violated:
+        raise MachineryError("self-test failed: ObjRefines not violated by the deviating object")
     recs = pmap(run_case, list(enumerate(cases, 1)))
     for r in recs:
         ctx.count(r["c"])
     for r in recs[:: max(1, len(recs) // 4)][:4]:
         ctx.sample({"case": r["c"], "observed": r["obs"][0]})
     judge(ctx, recs, "judge replayed cases (HistTrace)")
-    # 3. larger seeded cases, code -> spec
+    hrecs = pmap(run_history, list(enumerate(hists, 1)))
+    for r in hrecs:
+        ctx.count(r["h"])
+    ctx.sample({"history": hrecs[len(hrecs) // 2]["h"], "observed": hrecs[len(hrecs) // 2]["steps"]})
+    judge_histories(ctx, hrecs, "judge replayed object histories (HistTrace)")
+    # 3. larger seeded cases and histories, code -> spec
     nrand, maxlen = (400, 60) if ctx.quick else (6000, 200)
     rc = random_cases(random.Random(ctx.seed), nrand, maxlen, len(recs) + 1)
     rrecs = pmap(run_case, rc)
     for r in rrecs:
         ctx.count(r["c"])
     judge(ctx, rrecs, "judge seeded larger cases (HistTrace)")
+    nhist = 300 if ctx.quick else 5000
+    rh = random_histories(random.Random(ctx.seed + 7919), nhist, maxlen, len(hrecs) + 1)
+    rhrecs = pmap(run_history, rh)
+    for r in rhrecs:
+        ctx.count(r["h"])
+    judge_histories(ctx, rhrecs, "judge seeded longer histories (HistTrace)")
     # 4. engines agree bit-for-bit off the lattice (two implementation outputs; no oracle)
     noff = 2000 if ctx.quick else 40000
     bad = [b for b in pmap(engines_agree_offlattice, [(ctx.seed * 1000003 + k,) for k in range(noff)]) if b]
     ctx.evaluations += noff
     for b in bad:
         ctx.violation("histogram|engines_differ|offlattice", "C and Python engines return different arrays", dict(b, kind="offlattice"))
-    # 5. binding self-test: a corrupted observation must be rejected
+    # 5. binding self-test: a corrupted observation must be rejected (case and history records)
     probe = next(r for r in recs if r["obs"][0]["err"] == "none" and sum(r["obs"][0]["hist"]) >= 2)
     bad_obs = dict(probe["obs"][0]); bad_obs["hist"] = list(bad_obs["hist"]); bad_obs["hist"][bad_obs["hist"].index(max(bad_obs["hist"]))] -= 1
+    hprobe = next(r for r in hrecs if all(s["obs"][0]["err"] == "none" and s["obs"][0]["hasrev"] and sum(s["obs"][0]["hist"]) >= 2 for s in r["steps"]))
+    hbad = [dict(s, obs=[dict(o) for o in s["obs"]]) for s in hprobe["steps"]]
+    last = hbad[-1]["obs"][0]
+    nb = len(last["hist"])
+    last["rev"] = list(last["rev"]); last["rev"][nb + 1:] = last["rev"][nb + 1:][::-1]       # identity-like order instead of sorted
+    if last["rev"] == hprobe["steps"][-1]["obs"][0]["rev"]:
+        last["rev"][-1] = (last["rev"][-1] + 1) % len(hprobe["h"]["x"])
+    hstale = [dict(s, fresh=[False] + list(s["fresh"][1:])) for s in hprobe["steps"][:1]] + hprobe["steps"][1:]
     saved = ctx.traces
-    rej = tracecheck.validate(ctx, "HistTrace.tla", [{"id": 1, "c": probe["c"], "obs": [bad_obs]}, {"id": 2, "c": probe["c"], "obs": probe["obs"]}],
-                              what="self-test: corrupted record rejected", workers=1)
+    rej = tracecheck.validate(ctx, "HistTrace.tla", [{"id": 1, "kind": "case", "c": probe["c"], "obs": [bad_obs]},
+                                                     {"id": 2, "kind": "case", "c": probe["c"], "obs": probe["obs"]},
+                                                     {"id": 3, "kind": "history", "h": hprobe["h"], "steps": hbad},
+                                                     {"id": 4, "kind": "history", "h": hprobe["h"], "steps": hprobe["steps"]},
+                                                     {"id": 5, "kind": "history", "h": hprobe["h"], "steps": hstale}],
+                              what="self-test: corrupted records rejected", workers=1)
     ctx.traces = saved
-    if 1 not in rej or (2 in rej and 2 not in {r["id"] for r in recs}):
-        raise MachineryError("binding self-test failed: corrupted histogram not rejected (%s)" % rej)
+    if 1 not in rej or 2 in rej or 3 not in rej or 4 in rej or rej.get(5) != ["1:reused_object_differs_from_fresh"]:
+        raise MachineryError("binding self-test failed: corrupted histogram / history not rejected exactly (%s)" % rej)
     ctx.rule = ("every data array of length 1..%d over %d lattice values x every bin size %s / bin count %s x every min,max in "
-                "%s or absent (exported from HistMC.tla), each concretised on one of %d dyadic lattices and run through both "
-                "engines with and without rev; plus %d seeded arrays up to length %d; a case is distinct by its abstract "
-                "record and non-trivial always (each has >=1 datum)" %
+                "%s or absent (exported from HistMC.tla), each in one of %d representations of the data argument x 4 entry points x 4 "
+                "scalar kinds (covering design chosen by the model, all pairs with mode / limit pattern / entry present), concretised on "
+                "a dyadic lattice the representation holds exactly and run through both engines with and without rev; every "
+                "history of %d calls (6 bin specifications x rev x 4 limit patterns, calc_stats) on ONE Binner object over every "
+                "array of length %s over %s (last call thinned 1:%d), each step judged and compared with a fresh object; plus %d seeded "
+                "arrays up to length %d and %d seeded histories of 2..5 calls; a case is distinct by its abstract record and "
+                "non-trivial always (each has >=1 datum)" %
                 (B["MaxLen"], len(B["Vals"]), sorted(B["BinSizes"]), sorted(B["NBinSet"]), sorted(B["LimVals"]),
-                 len(CONCRETE), nrand, maxlen))
+                 len(REPS) + len(SCALAR_REPS), B["HDepth"], sorted(B["HLens"]), sorted(B["HVals"]), B["HThin"], nrand, maxlen, nhist))
     ctx.exhaustive = True
     ctx.note(bounds={k: sorted(v) if isinstance(v, set) else v for k, v in B.items()}, offlattice_engine_pairs=noff,
-             exported_cases=len(cases))
+             exported_cases=len(cases), exported_histories=len(hists), covering_design=design)
     ctx.assumptions = ["dyadic lattice: binary64 subtraction and quotient floor are exact unless the real quotient is an integer and the bin size inexact (those bins are unconstrained)",
-                       "non-dyadic data/bin sizes off the lattice are compared engine-vs-engine only"]
+                       "non-dyadic data/bin sizes off the lattice are compared engine-vs-engine only",
+                       "equal-occupancy (nperbin) calls inside a history are judged by the partition clauses only (bin occupancy is C14's)"]
 
 
 def replay(ctx, case):
     if case.get("kind") == "offlattice":
-        x = np.array(case["x"]); a, b = observe(x, case["kw"], "c", True), observe(x, case["kw"], "py", True)
+        x, buf = represent(np.array(case["x"]), case.get("rep", "f8"))
+        e = case.get("entry", "histogram")
+        a, b = observe(x, case["kw"], "c", True, e, buf), observe(x, case["kw"], "py", True, e, buf)
         if (a["err"], a["hist"], a["rev"]) != (b["err"], b["hist"], b["rev"]):
             ctx.violation("histogram|engines_differ|offlattice", "C and Python engines differ", case)
         return
+    if case.get("kind") == "history":
+        rec = run_history((case.get("id", 1), case["h"]))
+        print("replay observed:", rec["steps"])
+        judge_histories(ctx, [rec], "replay")
+        return
     k = case.get("concrete", 0)
-    rec = run_case((k if k else len(CONCRETE), case["c"]))
-    rec["id"] = 1
+    rec = run_case((k, case["c"]))
     print("replay observed:", rec["obs"])
     judge(ctx, [rec], "replay")
